@@ -17,5 +17,8 @@ pub use queue::{QueueInfo, QueueParameters};
 pub use service::{AutoAllocService, LostWorkerDetails, create_autoalloc_service};
 pub use state::{Allocation, AllocationId, AllocationState, QueueId};
 
+#[cfg(feature = "verif")]
+pub use process::verif;
+
 #[cfg(test)]
 pub use service::tests::test_alloc_service;
